@@ -145,6 +145,10 @@ class Roles:
             elif isinstance(x, ast.Subscript):
                 chain.append("[]")
                 x = x.value
+            elif isinstance(x, ast.Call) and isinstance(x.func, ast.Name) and x.func.id == "getattr" and len(x.args) in (2, 3) and not x.keywords \
+                    and isinstance(x.args[1], ast.Constant) and isinstance(x.args[1].value, str):
+                chain.append(x.args[1].value)  # `getattr(tl, "attr", default)` reads tl.attr
+                x = x.args[0]
             else:
                 break
         if not isinstance(x, ast.Name):
